@@ -197,6 +197,9 @@ func checkAppDCSWrappers(c *Check) {
 					if l.Pos || l.T.Op != "isnil" {
 						continue
 					}
+					if l.T.Args[0].V == nil || !isErrorType(l.T.Args[0].V.Type()) {
+						continue
+					}
 					r := ResultOf(l.T.Args[0], -1)
 					if r == nil || r.In == nil {
 						continue
